@@ -42,4 +42,87 @@ good = run({"in_range": "lo <= result[0] and result[0] <= hi", "count": "result[
 assert all(v == "unsat" for v in good.values()), good
 bad = run({"wrong": "result[0] == x", "count": "result[1] == n + 1"})
 assert bad["ensures::wrong"] == "sat" and bad["ensures::count"] == "sat", bad
-print("pyvc selftest ok:", len(good), "obligations discharged; 2 wrong clauses refuted")
+
+
+def run_src(src, name, build):
+    idx = RepoIndex()
+    node = ast.parse(src).body[0]
+    fi = FuncInfo("selftest." + name, node, "selftest", None, "selftest.py", src)
+    idx.funcs[fi.qual] = fi
+    c = Contract(fi.qual)
+    build(c)
+    eng, obs, cx, t = verify_function(idx, {fi.qual: c}, fi.qual)
+    res = discharge(obs, cx.facts, timeout_ms=10000)
+    return {o.name.split("::", 1)[1]: r["result"] for o, r in zip(obs, res)}
+
+
+# trap 1: a loop invariant that only holds if the loop's write set is NOT havocked at the head must be refuted
+LOOP = """
+def count(n):
+    k = 0
+    for i in range(0, n):
+        k = k + 1
+    return k
+"""
+
+
+def b1(c):
+    c.ints("n")
+    c.req("n", "n >= 0")
+    c.loop(0, invariants={"stale": "k == 0"})
+    c.ens("zero", "result == 0")
+
+
+r1 = run_src(LOOP, "count", b1)
+assert r1["loop#0::inv-preserved::stale"] == "sat", r1
+
+# trap 2: exceptions - a caught raise does not escape, the handler's effect is seen, a wrong clause is refuted
+EXC = """
+def guarded(x):
+    try:
+        if x < 0:
+            raise ValueError("neg")
+        y = x
+    except ValueError:
+        y = 0
+    return y
+"""
+
+
+def b2(c):
+    c.ints("x")
+    c.check_raises = True
+    c.ens("nonneg", "result >= 0")
+    c.ens("wrong", "result == x")
+
+
+r2 = run_src(EXC, "guarded", b2)
+assert r2["ensures::nonneg"] == "unsat" and r2["ensures::wrong"] == "sat" and not any(k.startswith("no-raise") for k in r2), r2
+
+# trap 3: opt-in definedness - reading a local bound on one branch only is an UnboundLocalError exit that cannot be proved away
+UNB = """
+def maybe(x):
+    if x > 0:
+        r = 1
+    return r
+"""
+
+
+def b3(c):
+    c.ints("x")
+    c.check_raises = True
+    c.unbound_checks = True
+
+
+r3 = run_src(UNB, "maybe", b3)
+assert any(k.startswith("no-raise::UnboundLocalError") and v == "sat" for k, v in r3.items()), r3
+
+
+def b3ok(c):
+    b3(c)
+    c.req("pos", "x > 0")
+
+
+r3b = run_src(UNB, "maybe", b3ok)
+assert all(v == "unsat" for k, v in r3b.items() if k.startswith("no-raise")), r3b
+print("pyvc selftest ok:", len(good), "obligations discharged; 2 wrong clauses refuted; 3 unsoundness traps behave")
